@@ -10,16 +10,22 @@ Inductive timer_fx :=
 | FxNewProc.
 
 (* Timer.stop  (def stop(self):) *)
-Definition gen_Timer_stop (s : timer_st) (now : Q) (tau : Q) (own_callback : bool) (proc_alive : bool)
+Definition gen_Timer_stop (s : timer_st) (now : Q) (tau : Q) (next_instant : Q) (own_callback : bool) (proc_alive : bool)
   : timer_st * list timer_fx :=
   ({| t_start_time := (t_start_time s); t_timeout := (t_timeout s); t_expire_time := now; t_stopped := true |}, []).
 
 (* Timer.restart  (def restart(self, timeout: SimTime):) *)
-Definition gen_Timer_restart (s : timer_st) (now : Q) (tau : Q) (own_callback : bool) (proc_alive : bool)
+Definition gen_Timer_restart (s : timer_st) (now : Q) (tau : Q) (next_instant : Q) (own_callback : bool) (proc_alive : bool)
   : timer_st * list timer_fx :=
   let expire_time1 := (now + tau)%Q in
-  (if own_callback
-   then ({| t_start_time := now; t_timeout := tau; t_expire_time := expire_time1; t_stopped := (t_stopped s) |}, [])
-   else (if proc_alive
-         then ({| t_start_time := now; t_timeout := tau; t_expire_time := expire_time1; t_stopped := (t_stopped s) |}, [FxInterrupt; FxNewProc])
-         else ({| t_start_time := now; t_timeout := tau; t_expire_time := expire_time1; t_stopped := (t_stopped s) |}, []))).
+  (if ((negb (Qle_bool tau (0 # 1))) && (negb (negb (Qle_bool expire_time1 now))))
+   then (if own_callback
+         then ({| t_start_time := now; t_timeout := tau; t_expire_time := next_instant; t_stopped := (t_stopped s) |}, [])
+         else (if proc_alive
+               then ({| t_start_time := now; t_timeout := tau; t_expire_time := next_instant; t_stopped := (t_stopped s) |}, [FxInterrupt; FxNewProc])
+               else ({| t_start_time := now; t_timeout := tau; t_expire_time := next_instant; t_stopped := (t_stopped s) |}, [])))
+   else (if own_callback
+         then ({| t_start_time := now; t_timeout := tau; t_expire_time := expire_time1; t_stopped := (t_stopped s) |}, [])
+         else (if proc_alive
+               then ({| t_start_time := now; t_timeout := tau; t_expire_time := expire_time1; t_stopped := (t_stopped s) |}, [FxInterrupt; FxNewProc])
+               else ({| t_start_time := now; t_timeout := tau; t_expire_time := expire_time1; t_stopped := (t_stopped s) |}, [])))).
